@@ -18,7 +18,8 @@ RULE = ("fault enumeration at the placement boundary: RandomWalk.update_position
         "target not, every earlier build step positioned, no later one unless supplied), that abandoned attempts "
         "leave only supplied residues, that earlier molecules never change (bitwise) and that the final state has "
         "exactly one finite position per residue equal to the last point added. non-trivial = walk with >= 1 scripted "
-        "failure; distinct = (shape, nrewind, start failures, schedule)")
+        "failure; distinct = (shape, nrewind, start failures, schedule)"
+        ' Later: a placement outside update_positions in a molecule that has positioned residues is a violation (molecules with coordinates are continued, not started on the grid).')
 ASSUMPTIONS = ["real placements succeed in the dilute 14 nm box (a real failure is just one more recorded fail event)",
                "BuildSystem maxiter is set to 2 so that the give-up branch is reachable by a bounded schedule"]
 CASE_TIMEOUT = 600
